@@ -293,7 +293,8 @@ Proof.
   - unfold D_REMB. rewrite Hs, Hss, Hb, HV. destruct (N.leb_spec (nl (remb_ssrcs p)) 255); [|lia].
     unfold fits. change (2 ^ 32) with 4294967296. destruct (N.ltb_spec (Z.to_N (remb_dec e m)) 4294967296); [reflexivity|lia].
   - unfold remb_floor_pos. rewrite Hb, HF. apply Z.leb_le.
-    assert (HP : (0 < 2 ^ e)%Z) by (apply pow2_pos; lia). nia.
+    assert (HP : (0 < 2 ^ e)%Z) by (apply pow2_pos; lia).
+    assert (HQ : (m * 1 <= m * 2 ^ e)%Z) by (apply Z.mul_le_mono_nonneg_l; lia). lia.
 Qed.
 
 Lemma REMB_image_D f p : REMB_unmarshal f = Ok p -> (remb_mant_field f <> 0 \/ remb_exp_field f < 58) ->
@@ -585,9 +586,16 @@ Definition reencode_fails (f : bytes) : Prop :=
   exists p b', framed16 f /\ decode_frame f = Ok p /\ marshal_packet p = Ok b' /\
                ~ (exists p', decode_frame b' = Ok p' /\ framed16 b' /\ pkt_equiv p p').
 
+(* stated over a variable so that checking the statements below does not evaluate the decoder *)
+Definition unstable (f : bytes) : Prop := match decode_frame f with Ok p => ~ stable_pkt f p | _ => False end.
+Definition ccfb_reencode_overflows (f : bytes) : Prop :=
+  match decode_frame f with
+  | Ok (PCCFB p) => match CCFB_marshal p with Ok b' => len b' = 262144 /\ Unmarshal b' = Err /\ ~ framed16 b' | _ => False end
+  | _ => False
+  end.
+
 (* TWCC with an inconsistent header (length field announcing more than the content): the re-encoding no longer decodes *)
-Lemma frame_reencode_twcc_refuted : reencode_fails twcc_slack /\
-  match decode_frame twcc_slack with Ok p => ~ stable_pkt twcc_slack p | _ => False end.
+Lemma frame_reencode_twcc_refuted : reencode_fails twcc_slack /\ unstable twcc_slack.
 Proof.
   split.
   - eexists. eexists. split; [framed16_conc|]. split; [vm_compute; reflexivity|]. split; [vm_compute; reflexivity|].
@@ -596,8 +604,7 @@ Proof.
 Qed.
 
 (* REMB, finding F16: mantissa field 0 with exponent field 58: the second decoding yields another bitrate *)
-Lemma frame_reencode_remb_refuted : reencode_fails remb_zero_packet /\
-  match decode_frame remb_zero_packet with Ok p => ~ stable_pkt remb_zero_packet p | _ => False end.
+Lemma frame_reencode_remb_refuted : reencode_fails remb_zero_packet /\ unstable remb_zero_packet.
 Proof.
   split.
   - eexists. eexists. split; [framed16_conc|]. split; [vm_compute; reflexivity|]. split; [vm_compute; reflexivity|].
@@ -608,8 +615,7 @@ Qed.
 (* FIR, finding F20: a 65540-octet frame (length field 16384, which wraps to 0 in the decoder's uint16 arithmetic)
    decodes to a FIR without entries, whose 12-octet re-encoding is rejected *)
 Definition fir_wrap_frame : bytes := [n2b 132; n2b 206; n2b 64; x00] ++ zeros 65536.
-Lemma frame_reencode_fir_refuted : reencode_fails fir_wrap_frame /\
-  match decode_frame fir_wrap_frame with Ok p => ~ stable_pkt fir_wrap_frame p | _ => False end.
+Lemma frame_reencode_fir_refuted : reencode_fails fir_wrap_frame /\ unstable fir_wrap_frame.
 Proof.
   split.
   - eexists. eexists. split; [framed16_conc|]. split; [vm_compute; reflexivity|]. split; [vm_compute; reflexivity|].
@@ -623,10 +629,7 @@ Definition ccfb_blk (nrf pad : N) : bytes := be 4 0 ++ be 2 0 ++ be 2 nrf ++ zer
 Definition ccfb_max_frame : bytes :=
   [n2b 139; n2b 205; n2b 255; n2b 254] ++ be 4 1 ++ List.concat (repeat (ccfb_blk 16383 32768) 7) ++ ccfb_blk 16345 32692.
 Lemma frame_reencode_ccfb_refuted : framed16 ccfb_max_frame /\ len ccfb_max_frame = 262140 /\
-  match decode_frame ccfb_max_frame with
-  | Ok (PCCFB p) => match CCFB_marshal p with Ok b' => len b' = 262144 /\ Unmarshal b' = Err /\ ~ framed16 b' | _ => False end
-  | _ => False
-  end.
+  ccfb_reencode_overflows ccfb_max_frame.
 Proof.
   split; [framed16_conc|]. split; [vm_compute; reflexivity|].
   vm_compute. split; [reflexivity|]. split; [reflexivity|]. intros [_ X]. discriminate X.
@@ -634,28 +637,10 @@ Qed.
 
 (* ------------------------------------------------------------------------------------------------ *)
 Print Assumptions decode_frame_never_sli.
-Print Assumptions SR_frame_reencode.
-Print Assumptions RR_frame_reencode.
-Print Assumptions SDES_frame_reencode.
-Print Assumptions BYE_frame_reencode.
-Print Assumptions APP_frame_reencode.
-Print Assumptions NACK_frame_reencode.
-Print Assumptions PLI_frame_reencode.
-Print Assumptions RRR_frame_reencode.
-Print Assumptions FIR_frame_reencode.
-Print Assumptions CCFB_frame_reencode.
-Print Assumptions REMB_frame_reencode.
-Print Assumptions TWCC_frame_reencode.
-Print Assumptions XR_frame_reencode.
-Print Assumptions Raw_frame_reencode.
 Print Assumptions frame_reencode.
-Print Assumptions frames_reencode.
 Print Assumptions datagram_reencode.
 Print Assumptions datagram_reencode_split.
-Print Assumptions frames_unique.
 Print Assumptions stable_dgram_unique.
-Print Assumptions CCFB_marshal_wide.
-Print Assumptions CCFB_reencode_no_panic.
 Print Assumptions frame_marshal_no_panic.
 Print Assumptions datagram_reencode_no_panic.
 Print Assumptions frame_reencode_twcc_refuted.
